@@ -13,6 +13,9 @@ package vgirpc
 //@   property C02
 //@   establishes inputTaken(r)
 //@   ensures [local_drained_ret1] exhausted(inputReader)
+//@   # the IPC reader is opened on the connection's own reader, not on a read-ahead wrapper of it
+//@   # (whatever a throw-away buffer had read past the end of the stream would be lost to the next request)
+//@   at call ipc.NewReader assert [noreadahead] arg0 == r
 
 //@ func (*Server).serveStream
 //@   property C02
@@ -62,3 +65,10 @@ package vgirpc
 //@   property C02
 //@   modifies nothing
 //@   ensures [kinds] (t == MethodUnary ==> result == "unary") && (t != MethodUnary ==> result == "stream")
+// (the same for the two other places that open an IPC reader on the shared connection)
+//@ func (*Server).serveStream
+//@   property C02
+//@   at call ipc.NewReader assert [noreadahead] arg0 == r
+//@ func ReadRequest
+//@   property C02
+//@   at call ipc.NewReader assert [noreadahead] arg0 == r
